@@ -1,6 +1,7 @@
 import Orb.Proto
 import Orb.Clip
 import Driver.C07
+import Driver.HeapOps
 import Generated.Params
 
 /-! Driver for C08 (ring / polygon clipping keeps exactly the region inside the box). -/
@@ -180,11 +181,81 @@ def handleGeom (inp out : Toks) : String :=
        | none => "skip non-finite")
     | _, _ => "bad output"
 
+/-! ### heap level: `clip.Geometry` on the caller's own memory (`Orb.HeapOps.geometryH`) -/
+
+/-- `cliph <box> <heap> <sgeom> => <heap afterwards> (nil | <located result>)` -/
+def handleClipH (inp out : Toks) : String :=
+  match (do
+    let (b, i) ← boundP inp
+    let (hp, i) ← Driver.HeapOps.heapP i
+    let (g, _) ← Driver.HeapOps.sgeomP i
+    pure (b, hp, g)) with
+  | none => "bad cliph"
+  | some (b, hp, g) =>
+    if out == ["panic"] then "propfail panic" else
+    let σ := Driver.HeapOps.storeF hp
+    let gF := Driver.HeapOps.mapS Float.ofBits g
+    let n0 := hp.length
+    let m : String := match Orb.HeapOps.geometryH ebF (boundF b) σ gF with
+      | none => "stuck"
+      | some (σ', r) =>
+        showPtss (Driver.HeapOps.storeBits (σ'.take n0)) ++ " " ++
+          (match r with | none => "nil" | some r => Driver.HeapOps.showSGeom n0 σ' r)
+    let got := " ".intercalate out
+    let fin (s : String) : String := if s.startsWith "propfail" || m == got then s else "diff " ++ m
+    fin <|
+    match Driver.HeapOps.heapP out with
+    | none => "bad cliph-out"
+    | some (hp', rest) =>
+      -- executable statements of `clip_frame` (nothing outside the capacity windows of the 2-d
+      -- members' rings is written; no array changes its size), `clip_readonly_1d` and
+      -- `clip_result_fresh_or_subslice`
+      let rh := Orb.HeapOps.ringHdrs gF
+      if hp'.length != hp.length || (hp.zip hp').any (fun (x, y) => x.length != y.length) then
+        "propfail clip-heap-shape" else
+      let changed := (Driver.HeapOps.cells hp).filter fun (a, i) =>
+        !(Driver.HeapOps.samePt ((hp.getD a []).getD i ⟨0, 0⟩) ((hp'.getD a []).getD i ⟨0, 0⟩))
+      if rh.isEmpty && !changed.isEmpty then "propfail clip-1d-not-readonly" else
+      let outside := changed.find? (fun (a, i) => !(rh.any (·.inWin a i)))
+      if let some (a, i) := outside then s!"propfail clip-writes-outside-ring-window array={a} index={i}" else
+      let locs := Driver.HeapOps.locsOf rest
+      if locs.any (fun l => !(rh.any fun h => h.arr == l.arr && h.off == l.off && h.cap == l.cap && l.len ≤ h.cap)) then
+        "propfail clip-result-aliases-input-outside-a-ring-slice" else
+      -- executable statement of `clip_denote`: legal, pairwise separated slices ⇒ the value the outcome
+      -- denotes in the reported heap is the value-level clip of what the argument denoted before
+      let allH := Orb.HeapOps.hdrs gF
+      let separated := Driver.HeapOps.wfAll σ allH && Driver.HeapOps.sepAll allH
+      let valueModel : String := match geometry ebF (boundF b) (Orb.HeapOps.denoteS σ gF) with
+        | none => "stuck"
+        | some none => "nil"
+        | some (some v) => showGeom (mapGeom Float.toBits v)
+      let valueImpl : String := if rest == ["nil"] then "nil" else
+        match Driver.HeapOps.lgeomP hp' rest with
+        | some (v, _) => showGeom v
+        | none => "unparsable"
+      if separated && valueModel != valueImpl then "propfail clip-denote-separated " ++ valueModel else
+      let nF := Driver.HeapOps.countFresh rest
+      let beyondLen := changed.any fun (a, i) => !(rh.any (·.covers a i))
+      let all := Orb.HeapOps.hdrs gF
+      let idx := List.range all.length
+      let overlap := idx.any fun i => idx.any fun j => i < j &&
+        (match all[i]?, all[j]? with
+         | some x, some y => x.arr == y.arr && x.off < y.off + y.cap && y.off < x.off + x.cap
+         | _, _ => false)
+      let sfx := (if beyondLen then " writes-beyond-len" else "") ++ (if overlap then " windows-overlap" else "") ++
+        (if !separated && valueModel != valueImpl then " differs-from-value-level" else "")
+      if rh.isEmpty then (if rest == ["nil"] then "ok cliph readonly-1d nil" else "ok cliph readonly-1d") else
+      if rest == ["nil"] then (if changed.isEmpty then "ok cliph nil-untouched" else "ok cliph nil-clobbered" ++ sfx) else
+      let where_ := if !locs.isEmpty && nF != 0 then "in-place+fresh" else if !locs.isEmpty then "in-place" else
+        if nF != 0 then "fresh" else "values"
+      s!"ok cliph {where_}{if changed.isEmpty then " heap-unchanged" else ""}{sfx}"
+
 def handle (ts : Toks) : String :=
   match ts with
   | op :: rest =>
     let (inp, out) := splitArrow rest
     match op with
+    | "cliph" => handleClipH inp out
     | "ring" => handleRing inp out
     | "split" => handleSplit inp out
     | "geom" => handleGeom inp out
